@@ -906,6 +906,9 @@ def main():
             "relational_checks": dict(ctx.relational),
             "known_findings_reproduced": kf_lines,
             "notes": ctx.notes[:20],
+            "outside_every_property": {"cases": ctx.outside_cases, "refused_where_the_model_answers_otherwise": ctx.outside_refusals,
+                                       "rule": "a call no property speaks about (core.outside_domain) is still compared with the model, but a refusal "
+                                               "by ValueError / TypeError there is never a violation and such calls are not replayed in the sessions"},
         },
         "assumptions": ["tools.xor consults sys.byteorder: both readings are modelled (Gen.tools.xor / xor_bigendian), equal on equal-length operands (C19.xor_bigendian_host); the differential tie runs on this little-endian host, the big-endian reading against a child with sys.byteorder rebound", "nesting depth / tree height below the interpreter recursion limit",
                         "convert callables are total and do not mutate their arguments"] + ctx.assumptions,
